@@ -59,7 +59,7 @@ def obligations(tier):
                         continue
                     if ncalls == 3 and n >= 3 and (combo.count('ok_s') + combo.count('ok_n') > 1):
                         continue
-                    for notif in ((False, True) if (ncalls == 2 and n <= 2) else (False,)):
+                    for notif in ((False, True) if ncalls == 2 else (False,)):
                         obs.append({'h': 'batch', 'ncalls': ncalls, 'els': list(combo), 'notif': notif, 'strict': strict,
                                     'kind': kind, '_weight': 4 ** n})
     return obs
